@@ -179,6 +179,31 @@ class Ctx:
             raise Infra("TLC error in %s/%s: %s\n%s" % (module, cfg, r.error, tail))
         return r
 
+    # -- TLAPS --------------------------------------------------------------
+    def tlaps(self, module, timeout=900, threads=8):
+        """Checks the proofs of spec/proofs/<module>.tla with the TLA+ proof system (tlapm), in a private copy next to
+        the specification modules it extends.  Returns the number of proof obligations, all of which must be proved:
+        an unproved obligation is a defect of the specification or of the proof, i.e. infrastructure, never a verdict
+        about the code."""
+        d = tempfile.mkdtemp(prefix="tlaps-", dir=self.scratch)
+        for f in os.listdir(os.path.join(VERIF, "spec")):
+            if f.endswith(".tla"):
+                shutil.copy(os.path.join(VERIF, "spec", f), d)
+        shutil.copy(os.path.join(VERIF, "spec", "proofs", module + ".tla"), d)
+        e = dict(os.environ, TMPDIR=d, HOME=d)
+        t = time.time()
+        try:
+            p = subprocess.run(["tlapm", "--threads", str(threads), "--cache-dir", os.path.join(d, "cache"), module + ".tla"], cwd=d, env=e,
+                               stdout=subprocess.PIPE, stderr=subprocess.STDOUT, timeout=timeout, text=True, errors="replace")
+        except subprocess.TimeoutExpired:
+            raise Infra("tlapm timeout after %ss: %s" % (timeout, module))
+        m = re.search(r"All (\d+) obligations? proved", p.stdout)
+        if p.returncode != 0 or not m:
+            raise Infra("tlapm: unproved obligations in %s\n%s" % (module, "\n".join(p.stdout.splitlines()[-40:])))
+        n = int(m.group(1))
+        self.extra.setdefault("tlaps", []).append({"module": module, "obligations_proved": n, "wall_s": round(time.time() - t, 1)})
+        return n
+
     def design_check(self, module, cfg, **kw):
         """Exhaustive check that must pass: a violated invariant in the property
         configuration is a defect of the *specification*, i.e. infrastructure."""
